@@ -22,7 +22,7 @@ RULE = ('file names = product of segment kinds {file names in root, subdir, ., .
         'from a path wildcard. Non-trivial = the name contains a dot-dot, an absolute prefix, a backslash or a sibling name; '
         'distinct = distinct (root spelling, filename).')
 PYOPT = {'quick': 1, 'thorough': 1}     # one unit of every kind is also served by an interpreter started with -O (assert statements compiled out)
-REQUIRED = ['units_run_under_python_-O', 'head_requests', 'probes_after_serving_another_root', 'served_200', 'denied_403', 'missing_404', 'opens_observed', 'names_with_dotdot', 'names_with_backslash',
+REQUIRED = ['units_run_under_python_-O', 'relative_root_after_chdir', 'head_requests', 'probes_after_serving_another_root', 'served_200', 'denied_403', 'missing_404', 'opens_observed', 'names_with_dotdot', 'names_with_backslash',
             'names_absolute', 'names_sibling_prefix', 'served_content_compared', 'via_wsgi']
 EXHAUSTIVE = {'quick': False, 'thorough': False,
               'quick_note': 'the product units enumerate the name product for <=2 segments completely', 'thorough_note': 'the product units enumerate the name product for <=3 segments completely'}
@@ -55,6 +55,11 @@ def build_tree():
     put('www-private/secret.txt', b'SIBLING www-private' * 13)
     put('wwwx', b'SIBLING file wwwx' * 17)
     put('other/a.txt', b'OTHER' * 19)
+    # a second tree with the same relative layout: what a relative root means depends on the working directory
+    put('alt/www/a.txt', b'ALT a' * 23)
+    put('alt/www/only-alt.txt', b'ALT only' * 29)
+    put('alt/www/sub/b.txt', b'ALT b in sub' * 31)
+    put('alt/www2/a.txt', b'ALT SIBLING www2' * 37)
     return base, files
 
 
@@ -83,8 +88,11 @@ def names(maxseg, base):
 
 def root_spellings(base):
     root = os.path.join(base, 'www')
+    import pathlib
     return [('plain', root), ('trailing', root + '/'), ('doubled', root + '//'), ('via_sub', root + '/sub/..'),
-            ('dot', root + '/.'), ('relative', 'www'), ('relative_dot', './www/')]
+            ('dot', root + '/.'), ('relative', 'www'), ('relative_dot', './www/'),
+            # path objects (os.PathLike): the root is what os.fspath() says
+            ('pathlib', pathlib.Path(root)), ('pure_posix_path', pathlib.PurePosixPath(root + '/')), ('pathlib_relative', pathlib.Path('www'))]
 
 
 def classify(ctx, name):
@@ -219,6 +227,37 @@ def history_unit(ctx, unit):
                         check_call(ctx, static_file, audit, base, files, real_b, rb, root_b, name, wit)
                         ctx.count('probes_after_serving_another_root')
         ctx.sample({'roots': roots, 'scheme': 'serve every file of root A (relative, slash-prefixed and absolute spelling), then ask root B for names incl. the absolute paths of files of A'})
+        # relative roots and a working directory that changes between calls: the root of a call is resolved when the call is made
+        alt = os.path.join(base, 'alt')
+        rels = ['www', 'www2', './www', 'www/sub']
+        for here, there in ((base, alt), (alt, base)):
+            for r1 in rels:
+                for r2 in rels:
+                    if r1 == r2:
+                        continue
+                    os.chdir(here)
+                    real_1_here = os.path.realpath(r1)
+                    inside_here = [p for p in files if p.startswith(real_1_here + os.sep)]
+                    for p in inside_here:
+                        with audit:
+                            res = static_file(os.path.relpath(p, real_1_here), r1)
+                        body = getattr(res, 'body', None)
+                        if hasattr(body, 'close'):
+                            body.close()
+                    os.chdir(there)
+                    real_1 = os.path.realpath(r1)
+                    real_2 = os.path.realpath(r2)
+                    some = list(itertools.islice(names(1, base), 0, 60))
+                    for name in some[:20]:
+                        check_call(ctx, static_file, audit, base, files, real_2, r2, r2, name, {'unit': {'kind': 'note', 'cwd': there.replace(base, '<BASE>'), 'root': r2, 'name': name.replace(base, '<BASE>')}})
+                    cand = [os.path.relpath(p, real_1_here) for p in inside_here] + [os.path.relpath(p, real_1) for p in inside_here] + some
+                    for name in cand:
+                        ctx.case(('chdir', here == base, r1, r2, name.replace(base, '')), nontrivial=True)
+                        wit = {'unit': {'kind': 'note', 'served_first': [here.replace(base, '<BASE>'), r1], 'then_cwd': there.replace(base, '<BASE>'), 'other_root_asked_in_between': r2,
+                                        'root': r1, 'name': name.replace(base, '<BASE>')}}
+                        check_call(ctx, static_file, audit, base, files, real_1, r1, r1, name, wit)
+                        check_head(ctx, static_file, base, files, real_1, r1, r1, name, wit)
+                        ctx.count('relative_root_after_chdir')
     finally:
         os.chdir(cwd)
         shutil.rmtree(base, ignore_errors=True)
